@@ -165,6 +165,13 @@ def judge(s, sink):
     if not isinstance(symbols, list):
         v.append(('not-a-list', 'list', type(symbols).__name__, 'parse_model returned something else than a list'))
         return label, v
+    # parsing is a function of its input: a second parse of the same text gives the same symbols (no state is kept between calls)
+    try:
+        again = fsic.parse_model(s)
+        if again != symbols:
+            v.append(('second-parse-differs', [tuple(x) for x in symbols][:3], [tuple(x) for x in again][:3], 'parsing the same text twice gives different results'))
+    except Exception as e:
+        v.append(('second-parse-raises:%s' % type(e).__name__, 'same result', repr(e)[:160], 'parsing the same text a second time raises'))
     # build + instantiate
     del _EXEC_HITS[:]
     _PHASE[0] = ('_evaluate', 'solve_t_before', 'solve_t_after')
